@@ -14,14 +14,30 @@ sys.path.insert(0, os.path.dirname(os.path.abspath(__file__)))
 from vlib import *
 
 HEADERS = ("reset", "pair", "circ", "begin", "xbegin")
-SKIP_KEYS = {"k", "msg", "how", "be", "name", "simp", "mode", "via", "fn", "rule", "op", "method", "seed", "id", "tags", "kind"}
+SKIP_KEYS = {"sca", "k", "msg", "how", "be", "name", "simp", "mode", "via", "fn", "rule", "op", "method", "seed", "id", "tags", "kind"}
 SWAP = {"N": "H", "H": "N", "Z": "X", "X": "Z", "ok": "panic", "true": "false", "false": "true", "HAD": "ZPhase", "CNOT": "CZ", "CZ": "CNOT"}
 
 
+def neutral(parent, idx):
+    """corruptions that do not change what the event says: the denominator of a zero phase [0, d], the exponent of a zero
+    ring element [0, 0, 0, 0, e]"""
+    if isinstance(parent, list) and all(isinstance(v, int) and not isinstance(v, bool) for v in parent):
+        if len(parent) == 2 and idx == 1 and parent[0] == 0:
+            return True
+        if len(parent) == 5 and idx == 4 and not any(parent[:4]):
+            return True
+    return False
+
+
 def leaves(x, path=()):
+    if isinstance(x, list):
+        for i, v in enumerate(x):
+            if not neutral(x, i):
+                yield from leaves(v, path + (i,))
+        return
     if isinstance(x, dict):
         for k, v in x.items():
-            if k in SKIP_KEYS and not path:
+            if k in SKIP_KEYS and (not path or k == "sca"):
                 continue
             yield from leaves(v, path + (k,))
     elif isinstance(x, list):
